@@ -260,3 +260,17 @@ Lemma uncentred_scores_differ :
 Proof.
   exists [0; 1], [1; 1], 1, [1; 1], [1; 1]. vm_compute. discriminate.
 Qed.
+
+(* in general the round trip is a PROJECTION: scoring the reconstruction again gives the same scores
+   (so transform o inverse_transform o transform = transform on the retained components) *)
+Local Open Scope R_scope.
+Theorem roundtrip_is_projection t Phi xt :
+  let m := length t in let K := length Phi in
+  Forall (fun r => length r = m) Phi ->
+  (forall k, (k < K)%nat -> map (fun g => innerR t (nth k Phi []) g) Phi = unit K k) ->
+  let xi := map (fun phi => innerR t xt phi) Phi in          (* scores of ANY curve xt *)
+  map (fun phi => innerR t (mtvR m Phi xi) phi) Phi = xi.     (* scores of its reconstruction *)
+Proof.
+  intros m K HP Horth xi. subst m K.
+  apply (scores_of_combination t Phi xi HP); [unfold xi; apply map_length|exact Horth].
+Qed.
